@@ -10,6 +10,8 @@ The helpers of cp_apr.py (`calculate_pi`, `calculate_phi`, `calc_partials`,
 `tt_loglikelihood_row`, `tt_linesearch_prowsubprob`, `tt_loglikelihood`) and the ktensor
 methods are also compared with the model one step at a time on generated inputs.
 The property itself is recomputed on every run with numpy only.
+Family `formulas` cross-checks the translator's reading of cp_apr.py: the generated Lean definitions at Float (driver
+op `c11_formula`) against `eval` of the Python expressions the translator hands out.
 """
 from __future__ import annotations
 
@@ -34,7 +36,9 @@ RULE = ("cases come from random.Random(VERIF_SEED). runs: count tensors of order
         "1e-4 / 1e-6; precompinds and inexact on/off; lbfgsMem 1..5; every run is made with printitn 0 (reference, replayed by the "
         "model) and again with printitn 1 (the default), 2 and 3 with stdout / logging captured. steps: the helpers of cp_apr.py "
         "and the ktensor normalisations on random non-negative models with zeros. validation: valid and malformed "
-        "requests with small exact values. A case is non-trivial when the implementation returns a model after at "
+        "requests with small exact values. formulas: every generated scalar definition of Generated/CpAprFormulas.lean "
+        "on points mixing 0, +-1, 1/2, quarters, tiny and random values (counts and positive model values for the "
+        "log-likelihood terms), against the Python expression the translator read. A case is non-trivial when the implementation returns a model after at "
         "least one outer iteration (runs), the compared arrays are non-empty (steps), or the request is accepted "
         "(validation); distinct = distinct case hash")
 ASSUMPTIONS = [
@@ -1085,5 +1089,63 @@ class Validation(Family):
         return out
 
 
+class Formulas(Family):
+    """Cross-check of the translator (harness/translate/gen_cpapr.py): every generated scalar definition, evaluated by
+    the driver at Float with the services the model hands to it, against `eval` of the Python expression the
+    translator read (over the parameter names, re-shapings dropped) on the same points.  A definition whose anchor was
+    lost has nothing to be compared with (the pinned definition is in use; the proof side reports the lost anchor);
+    the others still are."""
+    name = "formulas"
+    theorems = ("C11_objective_sparse", "C11_objective_dense")
+    NAMES = ("llTermSparse", "llTermDense", "llCombine", "kktEntry", "muUpdate", "rowKktEntry", "rowGrad", "lsTrial",
+             "project", "lsFallback", "armijoBound")
+
+    def gen(self, rng, tier):
+        out = []
+        for i in range(66 if tier == "quick" else 330):
+            name = self.NAMES[i % len(self.NAMES)]
+            vals = [rng.choice([0.0, 1.0, -1.0, 0.5, rng.uniform(-4, 4), rng.uniform(0, 1e-6), rng.randint(-6, 6) / 4])
+                    for _ in range(3)]
+            if name in ("llTermSparse", "llTermDense"):
+                vals[0] = float(rng.choice([0, 0, 1, 2, 7]))          # a count
+                vals[1] = rng.choice([rng.uniform(1e-9, 5), 1.0, 0.25])    # a positive model value
+            out.append({"name": name, "vals": vals})
+        return out
+
+    def evaluate(self, cases):
+        from harness.translate import gen_cpapr
+        try:
+            exprs, lost = gen_cpapr.formulas()
+        except Exception as e:  # noqa: BLE001
+            exprs, lost = {}, [f"{type(e).__name__}: {e}"]
+        reqs, impls, skipped = [], [], set()
+        for k, c in enumerate(cases):
+            e = exprs.get(c["name"])
+            if e is None:
+                skipped.add(k)
+                continue
+            args = list(c["vals"])[:len(e["params"])]
+            env = {"np": np}
+            env.update({q: np.float64(v) for q, v in zip(e["params"], args)})
+            with np.errstate(all="ignore"):
+                impls.append(float(eval(compile(e["python"], "<cp_apr formula>", "eval"), env)))  # noqa: S307
+            reqs.append({"op": "c11_formula", "name": c["name"], "args": [bits(v) for v in args]})
+        reps = iter(drive(reqs) if reqs else [])
+        impls = iter(impls)
+        out = []
+        for k, c in enumerate(cases):
+            if k in skipped:
+                out.append(Verdict("ok", f"translator lost anchors: {lost}", None, None, None, ["anchor-lost"], False))
+                continue
+            v, m = next(impls), next(reps)
+            mv = unbits(m["float"]) if isinstance(m, dict) and "float" in m else None
+            ok = mv is not None and ((math.isnan(mv) and math.isnan(v)) or mv == v
+                                     or abs(mv - v) <= 1e-15 * max(abs(mv), abs(v)))
+            out.append(Verdict("ok" if ok else "corr",
+                               "" if ok else f"generated {c['name']} differs from the Python expression", v, mv, None,
+                               [c["name"]]))
+        return out
+
+
 def families():
-    return [Runs(), Steps(), Validation()]
+    return [Runs(), Steps(), Validation(), Formulas()]
